@@ -16,6 +16,7 @@ import os
 import verifylib as V
 
 ASSUME = [
+    "overflow scenarios (ingest side parked in forkPoint -> Collect on the stopped task's full source edge): the points whose Collect had completed when StopTask/DeleteTask was requested must all be processed; of the acknowledged rest the task may still be handed a prefix (the Collect the stop had to wait for), which must then reach every output; a neighbour task on the same db/rp must end up with every acknowledged point",
     "accepted by a task = acknowledged by WritePoints (nil error) AND forked into the task's source edge before the stop; StopTask/DeleteTask stop feeding the task by design (points still in the TaskMaster's ingest edge are not the task's); for TaskMaster.Close / Drain every acknowledged point counts",
     "alert handler buffers (5000 events) never fill: a full buffer is a reported error by design",
     "kapacitorLoopback during daemon shutdown: a write refused with the reported error 'TaskMaster is closed' counts as handed over (not silent)",
@@ -36,6 +37,7 @@ ORIGINAL = [
     ("Pipeline_orig_alerterr.cfg", "Deadlock reached", "failed alert node left its handler goroutines behind"),
     ("Pipeline_loop.cfg", "Deadlock reached", "KNOWN FINDING loopback-stop-deadlock (not repaired)"),
     ("Pipeline_udf.cfg", "NoAcceptedLoss", "stopUDF aborted the UDF (and whatever it held) on every graceful stop"),
+    ("Pipeline_forknolock.cfg", "NoCollectOnClosed", "a forkPoint that collects without tm.mu.RLock (seeded C07-r3m1): delFork closes the source edge under the forking goroutine"),
     ("Pipeline_waitnomu.cfg", "Deadlock reached", "a node.Wait that does not hold finishedMu across the receive (seeded C07-r2m1): stop and waiter both receive from the one-shot errCh"),
 ]
 
@@ -54,7 +56,7 @@ def run(sc, tier, seed):
         R.add_model(res)
         per_cfg[cfg] = {"distinct": res["distinct"], "generated": res["states"], "wall_s": round(res["wall"], 1)}
     observed = {}
-    originals = ORIGINAL if tier != "quick" else [o for o in ORIGINAL if o[0] in ("Pipeline_orig_influx.cfg", "Pipeline_loop.cfg", "Pipeline_waitnomu.cfg")]
+    originals = ORIGINAL if tier != "quick" else [o for o in ORIGINAL if o[0] in ("Pipeline_orig_influx.cfg", "Pipeline_loop.cfg", "Pipeline_waitnomu.cfg", "Pipeline_forknolock.cfg")]
     for cfg, want, what in originals:
         res = V.model_check(sc, "Pipeline", "PipelineMC.tla", cfg, workers=4, timeout=600, expect_violation=[want])
         if res["violated"] != want:
